@@ -23,7 +23,10 @@ class ToGFA2:
     rpos = self.pos + self.overlap.length_on_reference()
     if rpos == self._lastpos_of("from_segment"):
       rpos = gfapy.LastPos(rpos)
-    return [self.pos, rpos]
+    lpos = self.pos
+    if lpos == self._lastpos_of("from_segment"):
+      lpos = gfapy.LastPos(lpos)
+    return [lpos, rpos]
 
   @property
   def to_coords(self):
